@@ -22,7 +22,7 @@ CaseSeq == SetToSeq(Cases)
 Init == c \in {CaseSeq[i] : i \in {j \in 1..Len(CaseSeq) : j % NSlices = Slice}}
 Next == UNCHANGED c
 
-CorsOf(v, ts) == {<<"none", 0>>} \cup {cor \in ({"trunc", "drop"} \X (1..Len(ts))) \cup ({"trail"} \X (1..Len(Trailers))) : Applicable(v, ts, cor)}
+CorsOf(v, ts) == {<<"none", 0>>} \cup {cor \in ({"trunc", "drop"} \X (1..Len(ts))) \cup ({"trail"} \X (1..Len(Trailers))) \cup ({"comma"} \X (1..(Len(ts) + 1))) : Applicable(v, ts, cor)}
 Export ==
   LET v == c[1] pat == c[2] ts == DocTokens(v, pat) IN
   \A cor \in CorsOf(v, ts) :
